@@ -720,6 +720,44 @@ MANIFEST = dict(
 
 
 # --------------------------------------------------------------------------
+# audit (round 4): what of the anchored code can influence the observation, and which case kind exercises it
+# --------------------------------------------------------------------------
+API_SURFACE = [
+    ('_iter_chunked(read, buff_size)', 'covered by dec/func and dec/wsgi (every line, VERIF_COVERAGE: 38/38)'),
+    ('_body_read(read, buff_size, *, chunked)', 'covered by dec/func'),
+    ('_body_read(..., content_length=)', 'covered by dec/wsgi+CL (ignored under chunked: C05_chunked_overrides_content_length) '
+                                         'and not-chunked cases'),
+    ('_body_read(..., max_body_size=)', 'covered by corpus maxb cases and kind=seq (413 between 400s); C13 owns the limit'),
+    ('_body_read(..., markup=)', 'covered by dec/wsgi+ctype mp/mp_q (every part is fed to MultipartMarkup.parse); the markup '
+                                 'itself is C06/C07'),
+    ('BodyMixin.chunked', "covered by dec/wsgi te alphabets (case, substring, latin-1 neighbours, blanks, absent); excluded: code "
+                          "points above U+00FF (U+212A KELVIN SIGN lower-cases to 'k'; not a WSGI header value, PEP 3333)"),
+    ('BodyMixin.content_length', 'covered by dec/wsgi cl spellings int() accepts (blanks, sign, zero, underscore, NBSP, empty, '
+                                 'negative); spellings it rejects: KNOWN FINDING C05-content-length-not-int; excluded: decimal '
+                                 'digits above U+00FF (not latin-1)'),
+    ('BodyMixin.body', 'covered by every dec/wsgi case: read, read again through the property (rewound), earlier partial read'),
+    ('BodyMixin._body (cache in environ, wsgi.input replaced)', "covered by pre ops 'second' (second Request over the environ), "
+                                                                "'copy_after' (copy shares the buffered body) and the no-further-read check"),
+    ('Request.copy() before the body is read', 'covered by pre op copy (observed through the copy only); excluded: reading through '
+                                               'the copy AND the original — copy() is shallow, both share one unread stream '
+                                               '(same as bottle), the second reader finds it consumed'),
+    ('environ CONTENT_TYPE', 'covered by ctype None/text/json/multipart/Multipart/empty boundary/boundary with ;  — the body '
+                             'bytes do not depend on it; excluded: boundary containing CR (InvalidBoundaryError -> 400, C12)'),
+    ("environ['wsgi.input'] missing", 'excluded: not a valid WSGI environ (KeyError)'),
+    ('wsgi.input.read short reads / early EOF', 'covered by every case (FragStream schedules: full, 1-byte, random)'),
+    ('BaseRequest._raise + config.errors_map', 'covered by dec/wsgi reject cases under conf ctor/setup/setup_over/setup_default'),
+    ('Ombott.__init__(config) / Ombott.setup(config) / setup()', 'covered by conf ctor / setup / setup_over / setup_default'),
+    ('config max_memfile_size', 'covered (buffer = longest line + {0,1,7,64}, smaller, 100 KiB default)'),
+    ('config max_body_size', 'covered by corpus + kind=seq; C13'),
+    ('config errors_map overridden by the user', 'excluded: then the status is the user\'s choice; the property fixes the default map '
+                                                 '(Gen.errors_map, regenerated each run)'),
+    ('one application / Request object serving many requests, shared HTTPError instances', 'covered by kind=seq '
+                                                                                            '(C05_response_function_of_request)'),
+    ('two applications alive at once', 'covered by kind=seq (apps with different limits interleaved); process-wide isolation is C10'),
+    ('threads', 'excluded: C08'),
+]
+
+# --------------------------------------------------------------------------
 # dev-only: line coverage of the anchored functions  (VERIF_COVERAGE=1 ./check C05 --no-coq)
 # --------------------------------------------------------------------------
 COVERAGE_TARGETS = {
